@@ -1,6 +1,10 @@
 import M3d.Lemmas.RenderSampling
 import Mathlib.Analysis.SpecialFunctions.Pow.Deriv
 import Mathlib.Analysis.SpecialFunctions.Sqrt
+import Mathlib.Analysis.SpecialFunctions.Trigonometric.Inverse
+import Mathlib.Analysis.Calculus.FDeriv.Mul
+import Mathlib.Analysis.Calculus.FDeriv.Prod
+import Mathlib.Analysis.Calculus.FDeriv.Add
 /-!
 Real-analysis lemmas for C19: the radial laws of the samplers (closed-form CDFs, their
 derivatives, and their composition with the samplers' radial maps).
@@ -78,5 +82,34 @@ theorem hg_cdf_deriv {g x : ℝ} (hg0 : g ≠ 0) (hd : 0 < hgDivisor g x) :
     rw [hsq]
   rw [e] at h2
   exact h2
+
+/-! ### the triangle map -/
+
+/-- `(u, r₂) ↦ (√u·(1−r₂), √u·r₂)`: the two free barycentric coordinates `MeshAreaLight.SampleLight`
+assigns to the second and third vertex for the draws `u, r₂` (`triBary (sqrt u) r₂`). -/
+noncomputable def triMap (p : ℝ × ℝ) : ℝ × ℝ := (Real.sqrt p.1 * (1 - p.2), Real.sqrt p.1 * p.2)
+
+theorem triMap_eq_triBary (u r2 : ℝ) :
+    triMap (u, r2) = ((triBary (sqrt u) r2).2.1, (triBary (sqrt u) r2).2.2) := rfl
+
+/-- The Fréchet derivative of the triangle map exists at every `(u, r₂)` with `u > 0` and its
+2×2 determinant is the constant `1/2`. -/
+theorem triMap_fderiv {u r2 : ℝ} (hu : 0 < u) :
+    ∃ f' : ℝ × ℝ →L[ℝ] ℝ × ℝ, HasFDerivAt triMap f' (u, r2) ∧
+      (f' (1, 0)).1 * (f' (0, 1)).2 - (f' (0, 1)).1 * (f' (1, 0)).2 = 1 / 2 := by
+  have hs : HasFDerivAt (fun p : ℝ × ℝ => Real.sqrt p.1)
+      ((1 / (2 * Real.sqrt u)) • ContinuousLinearMap.fst ℝ ℝ ℝ) (u, r2) := by
+    have h1 : HasDerivAt Real.sqrt (1 / (2 * Real.sqrt u)) u := Real.hasDerivAt_sqrt hu.ne'
+    exact h1.comp_hasFDerivAt (x := (u, r2)) hasFDerivAt_fst
+  have h2 : HasFDerivAt (fun p : ℝ × ℝ => p.2) (ContinuousLinearMap.snd ℝ ℝ ℝ) (u, r2) := hasFDerivAt_snd
+  have h12 : HasFDerivAt (fun p : ℝ × ℝ => 1 - p.2) (-(ContinuousLinearMap.snd ℝ ℝ ℝ)) (u, r2) := by
+    simpa using h2.const_sub 1
+  have ha := hs.mul h12
+  have hb := hs.mul h2
+  refine ⟨_, ha.prodMk hb, ?_⟩
+  have hsq : 0 < Real.sqrt u := Real.sqrt_pos.mpr hu
+  simp
+  field_simp
+  ring
 
 end M3d.RS
